@@ -511,21 +511,21 @@ func topRules(p *core.Program, r *core.Report, e *engines) {
 	// VM: after the loop, the result is the popped top
 	run := e.vm.Run
 	okRet := false
-	for _, st := range run.Body.List {
-		if is, ok := st.(*ast.IfStmt); ok {
-			// if len(vm.stack) > 0 { return vm.pop(), nil }
-			ast.Inspect(is.Body, func(n ast.Node) bool {
-				if rs, ok := n.(*ast.ReturnStmt); ok && len(rs.Results) == 2 {
-					if c, ok := rs.Results[0].(*ast.CallExpr); ok {
-						if fn := eng.CalleeOf(p.Pkg("vm").TypesInfo, c); fn != nil && e.vm.Prims[fn] == "pop" {
-							okRet = true
-						}
-					}
+	// some return that follows the dispatch loop yields the popped top (directly or through a
+	// name); whether it sits in `if len(stack) > 0 {…}` or after a guard for the empty stack
+	// does not matter
+	vinfo57 := p.Pkg("vm").TypesInfo
+	ld57 := eng.SingleDefs(vinfo57, run.Body)
+	ast.Inspect(run.Body, func(n ast.Node) bool {
+		if rs, ok := n.(*ast.ReturnStmt); ok && len(rs.Results) == 2 && rs.Pos() > e.vm.Switch.End() {
+			if c, ok := ld57.Resolve(rs.Results[0]).(*ast.CallExpr); ok {
+				if fn := eng.CalleeOf(vinfo57, c); fn != nil && e.vm.Prims[fn] == "pop" {
+					okRet = true
 				}
-				return true
-			})
+			}
 		}
-	}
+		return true
+	})
 	r.Check(okRet, "R5.7", "vm.(VM).Run/result", p.Pos(run.Pos()), "Run returns the popped top of the stack after the loop", "Run does not return the popped top of the stack")
 }
 
